@@ -441,6 +441,9 @@ pub fn scenarios(prop: &str, tier: &str) -> Vec<Arc<dyn Scenario>> {
                 vec![mp(&[0, 1, 2, 3]), fl.clone(), mj.clone(), mp(&[1, 2]), fl.clone()],
                 vec![mp(&[0, 1, 2, 3]), fl.clone(), mj.clone(), md(&[1]), fl.clone()],
                 vec![mp(&[0, 1, 2, 3]), fl.clone(), mp(&[0, 3])],
+                // sealed memtables pending
+                vec![mp(&[0, 1, 2, 3]), Op::Rotate],
+                vec![mp(&[0, 1]), fl.clone(), mp(&[1, 2]), Op::Rotate, mp(&[3])],
             ];
             let pts: Vec<Vec<u8>> = if quick {
                 vec![b"a".to_vec(), b"b".to_vec(), b"b0".to_vec(), b"d".to_vec()]
@@ -569,7 +572,10 @@ pub fn scenarios(prop: &str, tier: &str) -> Vec<Arc<dyn Scenario>> {
                 ar.no_unsnap = true;
                 ar.reopen = true;
                 let bd = if quick { bs(3, 2, 1, 1, 0) } else { bs(4, 3, 1, 1, 0) };
-                push(format!("{prop}-relocating"), mk(16, 64 << 20, 0.0, 1.0), &ar, bd, vec![vec![]]);
+                // no block / blob cache: nothing read earlier can hide a pointer that resolves wrongly
+                let mut cr = mk(16, 64 << 20, 0.0, 1.0);
+                cr.cache_bytes = 0;
+                push(format!("{prop}-relocating"), cr, &ar, bd, vec![vec![]]);
             }
             if quick {
                 push(format!("{prop}-t16-aggressive"), mk(16, 1, 0.0, 1.0), &a, bs(2, 2, 1, 1, 1), seeds_upto(1));
@@ -618,6 +624,18 @@ pub fn scenarios(prop: &str, tier: &str) -> Vec<Arc<dyn Scenario>> {
                 vec![vec![]],
                 OracleKind::C13,
             ));
+            {
+                // separation threshold 0: even an empty value is "large"
+                let c0 = TreeCfg::small(keys_ab()).with_blob(0);
+                v.push(std(
+                    "C13-discipline-blob0",
+                    c0,
+                    a.clone(),
+                    if quick { b(2, 2, 0, 1) } else { b(3, 3, 1, 1) },
+                    vec![vec![]],
+                    OracleKind::C13,
+                ));
+            }
             if !quick {
                 let mut c = TreeCfg::small(keys_ab()).with_blob(1);
                 c.block_size = 4096;
